@@ -111,6 +111,9 @@ func main() {
 		if err == nil {
 			err = cancel.ClientContext(res, *seed)
 		}
+		if err == nil {
+			err = cancel.SubCancelAfterReconnect(res, *seed)
+		}
 	case "C15":
 		res.Rule = "end causes {graceful close, FIN, RST, server-side context cancel} x handler reaction time {0, 15 ms} with five handlers in progress (unary, 300 kB response, stream, notification, reverse-calling), plus the reader-hand-off schedule; every captured context must be cancelled and no goroutine labelled for the dead connection may remain; distinct = (cause, reaction, gate)"
 		err = cancel.ConnectionEnd(d, res, *seed, thorough)
@@ -130,6 +133,11 @@ func main() {
 		}
 		if err == nil {
 			err = stream.Independence(res, *seed)
+		}
+		if err == nil {
+			// a subscription opened after a reconnect keeps every value when the context of a subscription of the
+			// previous connection ends
+			err = stream.StaleContextAfterReconnect(d, res, *seed)
 		}
 	case "C08":
 		res.Rule = "termination causes {handler close, context cancel, connection loss (fin/rst/blackhole; armed on the channel-id response at 5 byte positions, or cut later), client close, cancel racing loss, loss then close, handler close racing cancel} x instants {at start, after the first value, mid-stream, with values buffered behind a stalled consumer} x {reconnecting, no-reconnect} x 1..3 subscriptions; per subscription the hook trace is replayed through the model; every channel must close; distinct = (cause, instant, reconnect, fault, k, n); every case non-trivial"
